@@ -82,7 +82,9 @@ func vfJO(kv ...any) *vfJ {
 }
 
 var c14Scalars = []string{`null`, `true`, `false`, `0`, `-0`, `1.5`, `1e3`, `1E-2`, `12345678901234567890`, `""`, `"a"`, `"é"`, `"é"`,
-	`"a\"b"`, `"\n"`, `"<&>"`, `"---"`, `"[TestA - 2]"`, `"\\u003c"`, `"a\\u0026b"`, `" "`, `"/-/-/-/"`}
+	`"a\"b"`, `"\n"`, `"<&>"`, `"---"`, `"[TestA - 2]"`, `"\\u003c"`, `"a\\u0026b"`, `" "`, `"/-/-/-/"`,
+	// strings whose CONTENT is itself a JSON document (they are strings all the same), and an integer beyond 2^53
+	`"123"`, `"true"`, `"null"`, `"[]"`, `"{\"b\":1}"`, `" [1] "`, `9007199254740993`}
 var c14Keys = []string{`"a"`, `"b"`, `"A"`, `"é"`, `"a.b"`, `""`, `"a b"`, `"---"`, `"[TestA - 2]"`}
 
 func c14Docs(thorough bool) []*vfJ {
@@ -313,6 +315,18 @@ func c14RunDoc(c *vfCtx, cs c14Case, d *vfJ, T string, inVal any, opt *c14Opt) {
 			if !replay(fmt.Sprintf("presentation ws=%d order=%d (the same []byte a second time)", ws, ord), buf) {
 				return
 			}
+		}
+	}
+	// a DIFFERENT document that decodes to the same float64 / the same Go value must not pass against this one's snapshot
+	for _, near := range map[string][]string{`9007199254740993`: {`9007199254740992`, `9007199254740993.0`}, `12345678901234567890`: {`12345678901234567891`}, `1.5`: {`1.50`, `15e-1`}, `"123"`: {`123`}, `"true"`: {`true`}, `"[]"`: {`[]`}}[T] {
+		vfResetState(false, "", true)
+		tn := &vfT{name: "TestA"}
+		WithConfig(append(append([]func(*Config){}, cfgOpts...), Update(false))...).MatchStandaloneJSON(tn, near)
+		tn.end()
+		c.count("transitions", 1)
+		if o := tn.outcome(vfMark{}); o != "failed" {
+			c.violation("", fmt.Sprintf("stored document %q, received the different document %q: the call signalled %s, not a failure", vfClip(T), near, o), cs)
+			return
 		}
 	}
 	if opt != nil {
